@@ -132,6 +132,10 @@ var c05IssuerKinds = []struct {
 	{"self-signed/rsassa-pss", x509.SHA256WithRSAPSS},
 }
 
+// shape numbers from c05ValidityBase on: signing certificates by how their validity period relates to the time of
+// signing (validityShapes: covering it, expired, not yet valid, ending / starting at it, no period at all)
+const c05ValidityBase = 1000
+
 func c05NShapes(c *Ctx) int { return len(certShapes(c)) + len(c05IssuerKinds) }
 
 var c05CAKeys = map[string]crypto.Signer{}
@@ -140,6 +144,14 @@ var c05CAKeys = map[string]crypto.Signer{}
 // that an RSA leaf certificate under one of c05IssuerKinds
 func c05Cert(c *Ctx, key *rsa.PrivateKey, idx int) (*x509.Certificate, string) {
 	shapes := certShapes(c)
+	if idx >= c05ValidityBase {
+		// a certificate whose validity period stands in relation (idx-base)/2 to the moment of signing (= now),
+		// self-signed (even) or issued by a CA (odd); made for the call, so that "now" is the time of the call
+		vs := validityShapes(time.Now(), idx%2 == 0)
+		sh := vs[((idx-c05ValidityBase)/2)%len(vs)]
+		f := strings.Split(sh.desc, "/")
+		return makeRSACert(key, sh), f[0] + "/" + f[1] + "/" + f[len(f)-1]
+	}
 	idx %= c05NShapes(c)
 	if idx < len(shapes) {
 		return makeRSACert(key, shapes[idx]), shapes[idx].desc
@@ -939,6 +951,40 @@ func c05Gen(c *Ctx) {
 			return
 		}
 	}
+	// signing certificates by their validity period at the time of signing: "any certificate" includes one that has
+	// expired (a year / a second ago) and one that is not valid yet (from a second / a year from now on) - keys
+	// outlive their certificates, and Secure Boot ignores expiry -, one whose period ends or starts at the very second,
+	// one with no validity period at all; self-signed and CA-issued. SignPKCS7 stamps the current time into
+	// signingTime: the output must be accepted by the library's own verification and by the independent ones (which
+	// are not asked to judge the certificate's validity: openssl -noverify; go.mozilla.org/pkcs7 is handed the
+	// certificate with an unbounded period) like any other. Detached data and an attached non-data type, and
+	// SignAuthenticode for every other relation.
+	for k := range validityShapes(time.Now(), true) {
+		for self := 0; self < 2; self++ {
+			if !c.Thorough && k > 4 && (k+self)%2 == 1 {
+				continue
+			}
+			shape := int64(c05ValidityBase + 2*k + self)
+			for j, o := range []string{oids[0], oids[1+k%(len(oids)-1)]} {
+				if !c.Thorough && j != (k+self)%2 && k > 4 {
+					continue
+				}
+				cs := Case{"op": "sign", "oid": o, "content": hx(contentFor(c, o, []int{40, 300, 1}[(k+j)%3])), "bits": int64(2048), "key": int64((k + j) % 2), "shape": shape,
+					"signer": signerKinds[(k+j+self)%len(signerKinds)]}
+				if j == 0 && haveOpenssl {
+					cs["openssl"] = "smime -verify"
+				}
+				c05Eval(c, cs)
+			}
+			if (k+self)%2 == 0 {
+				c05Eval(c, Case{"op": "sign-authenticode", "len": int64(200 + k), "salt": fmt.Sprintf("authenticode-validity-%d-%d", c.Seed, k), "bits": int64(2048), "key": int64(k % 2),
+					"shape": shape, "signer": signerKinds[k%len(signerKinds)]})
+			}
+			if c.NFailures() >= 6 {
+				return
+			}
+		}
+	}
 	// the other producer: SignAuthenticode over streams of several lengths
 	for i, l := range []int{0, 1, 63, 64, 4096, 70000} {
 		c05Eval(c, Case{"op": "sign-authenticode", "len": int64(l), "salt": fmt.Sprintf("authenticode-%d-%d", c.Seed, i), "bits": int64(bitsets[i%len(bitsets)]), "key": int64(i % 2),
@@ -969,7 +1015,7 @@ func c05Gen(c *Ctx) {
 
 func init() {
 	register("C05", &PropDef{
-		Rule:   "SignPKCS7 handed five kinds of caller-supplied crypto.Signer holding the same RSA key (*rsa.PrivateKey; a wrapper offering only Sign and Public; one that additionally offers SignMessage(rand, msg, opts) with message semantics, i.e. hashes msg itself like crypto.MessageSigner / token and KMS wrappers; one whose Public() returns the key by value instead of by pointer; a pointer-receiver holder whose Sign chooses PSS or PKCS#1 v1.5 from the options it is given), rotating over content types {data, SpcIndirectDataContent, 2.999.1234567.1, 0.39.16383.16384, signedData, and two enterprise OIDs of 14 and 38 content octets (signed attributes longer than 127 bytes)} x content lengths {0,1,2,127,128,255,256,1000,65535,65536,70000,random} x RSA 2048 (thorough: 3072, 4096) x 21 certificates (the 16 shapes of the harness: self-signed and issued by an RSA CA with issuer different from subject; short/long/multi-RDN/UTF-8/hand-encoded issuers; serials 1,127,128,255,256, high-bit, leading-zero source bytes, 20 bytes, 2^159; the certificate itself signed with SHA-256/384/512; and 5 by WHO issued them: an RSA signing certificate issued by an ECDSA P-256 CA, by an ECDSA P-384 CA with SHA-384, by an Ed25519 CA, by an RSA CA signing with RSASSA-PSS, and self-signed with RSASSA-PSS - the certificate's own signatureAlgorithm then differs from the kind of the subject's key, which is what the SignerInfo's digestEncryptionAlgorithm has to describe: rsaEncryption / sha256WithRSAEncryption, read off the blob with encoding/asn1, and go.mozilla.org/pkcs7 and OpenSSL verify by that field; each of the five runs as detached data [OpenSSL CLI too], as an attached non-data type and through SignAuthenticode, and in the rotation). Contents that are themselves DER, each as data and (where a run of complete values) under a non-data type: exactly one complete value - a SEQUENCE of 0, 3, 127, 128, 300 and 70000 content octets, a SEQUENCE in a SEQUENCE, a SET, an OCTET STRING, a certificate, a SignedData made by the library (a signature over a signature) -, two SEQUENCEs, and near misses (a SEQUENCE followed by one byte, a SEQUENCE header announcing more than follows, a non-minimal length). authenticode.SignAuthenticode over streams of 0, 1, 63, 64, 4096 and 70000 bytes (the encapsulated SpcIndirectDataContent located with encoding/asn1 must carry the SHA-256 of the stream, and the blob is judged as SignPKCS7's for that content). Concurrent use: 2, 4, 8 and 16 goroutines x 6 calls each [thorough: 24] with contents of 64 KiB / mixed 64 KiB, 1, 70000, 300 / 0 and 17 bytes, one key and certificate for all or one per goroutine, through a caller-supplied crypto.Signer that holds every Sign call until the Sign calls of all running goroutines have arrived (so all calls are inside SignPKCS7 together and the next calls hash their contents at the same moment); each call must return what it returns alone: every blob is judged against the content of ITS call by all Go-side oracles, one per goroutine also by the Lean models. Each blob is checked, with encoding/asn1 alone, for every clause of the statement (signedData; SHA-256 as digest algorithm of SignedData and signer entry; content type; attached content = one SEQUENCE holding exactly the supplied content / detached = none; the certificate embedded; one signer entry naming issuer and serial; RSA; signed contentType, signingTime and messageDigest = SHA-256 of the SUPPLIED content), detached data signatures of up to 1000 octets are given to openssl smime -verify with the content and with different content when the CLI exists; each blob is checked for strict DER (minimal lengths, SET OF order) by an independent walker, verified by the library, by an encoding/asn1+crypto/rsa verifier, by go.mozilla.org/pkcs7 and by the Lean Spec, with the right and with different content, and reproduced byte for byte by the Lean builder model. Every case is non-trivial; distinct = distinct (oid, content, key, shape, signer kind) resp. distinct concurrent schedule / stream.",
+		Rule:   "SignPKCS7 handed five kinds of caller-supplied crypto.Signer holding the same RSA key (*rsa.PrivateKey; a wrapper offering only Sign and Public; one that additionally offers SignMessage(rand, msg, opts) with message semantics, i.e. hashes msg itself like crypto.MessageSigner / token and KMS wrappers; one whose Public() returns the key by value instead of by pointer; a pointer-receiver holder whose Sign chooses PSS or PKCS#1 v1.5 from the options it is given), rotating over content types {data, SpcIndirectDataContent, 2.999.1234567.1, 0.39.16383.16384, signedData, and two enterprise OIDs of 14 and 38 content octets (signed attributes longer than 127 bytes)} x content lengths {0,1,2,127,128,255,256,1000,65535,65536,70000,random} x RSA 2048 (thorough: 3072, 4096) x 21 certificates (the 16 shapes of the harness: self-signed and issued by an RSA CA with issuer different from subject; short/long/multi-RDN/UTF-8/hand-encoded issuers; serials 1,127,128,255,256, high-bit, leading-zero source bytes, 20 bytes, 2^159; the certificate itself signed with SHA-256/384/512; and 5 by WHO issued them: an RSA signing certificate issued by an ECDSA P-256 CA, by an ECDSA P-384 CA with SHA-384, by an Ed25519 CA, by an RSA CA signing with RSASSA-PSS, and self-signed with RSASSA-PSS - the certificate's own signatureAlgorithm then differs from the kind of the subject's key, which is what the SignerInfo's digestEncryptionAlgorithm has to describe: rsaEncryption / sha256WithRSAEncryption, read off the blob with encoding/asn1, and go.mozilla.org/pkcs7 and OpenSSL verify by that field; each of the five runs as detached data [OpenSSL CLI too], as an attached non-data type and through SignAuthenticode, and in the rotation). Contents that are themselves DER, each as data and (where a run of complete values) under a non-data type: exactly one complete value - a SEQUENCE of 0, 3, 127, 128, 300 and 70000 content octets, a SEQUENCE in a SEQUENCE, a SET, an OCTET STRING, a certificate, a SignedData made by the library (a signature over a signature) -, two SEQUENCEs, and near misses (a SEQUENCE followed by one byte, a SEQUENCE header announcing more than follows, a non-minimal length). authenticode.SignAuthenticode over streams of 0, 1, 63, 64, 4096 and 70000 bytes (the encapsulated SpcIndirectDataContent located with encoding/asn1 must carry the SHA-256 of the stream, and the blob is judged as SignPKCS7's for that content). Concurrent use: 2, 4, 8 and 16 goroutines x 6 calls each [thorough: 24] with contents of 64 KiB / mixed 64 KiB, 1, 70000, 300 / 0 and 17 bytes, one key and certificate for all or one per goroutine, through a caller-supplied crypto.Signer that holds every Sign call until the Sign calls of all running goroutines have arrived (so all calls are inside SignPKCS7 together and the next calls hash their contents at the same moment); each call must return what it returns alone: every blob is judged against the content of ITS call by all Go-side oracles, one per goroutine also by the Lean models. Each blob is checked, with encoding/asn1 alone, for every clause of the statement (signedData; SHA-256 as digest algorithm of SignedData and signer entry; content type; attached content = one SEQUENCE holding exactly the supplied content / detached = none; the certificate embedded; one signer entry naming issuer and serial; RSA; signed contentType, signingTime and messageDigest = SHA-256 of the SUPPLIED content), detached data signatures of up to 1000 octets are given to openssl smime -verify with the content and with different content when the CLI exists; each blob is checked for strict DER (minimal lengths, SET OF order) by an independent walker, verified by the library, by an encoding/asn1+crypto/rsa verifier, by go.mozilla.org/pkcs7 and by the Lean Spec, with the right and with different content, and reproduced byte for byte by the Lean builder model. Signing certificates by how their validity period relates to the time of signing (the library stamps the current time into signingTime): covering it, expired a year / a second before, valid only from a second / a year after, ending / starting at that very second, a single instant, no validity period at all, only NotBefore missing - self-signed and CA-issued, made at the time of the call (quick: the first five relations in both forms with detached data and an attached non-data type, the others alternating; thorough: all; SignAuthenticode for every other one): the output must pass the library's own verification and every other oracle like any other certificate's (expiry plays no part; go.mozilla.org/pkcs7 is handed the certificate with an unbounded period, OpenSSL runs with -noverify). Every case is non-trivial; distinct = distinct (oid, content, key, shape, signer kind) resp. distinct concurrent schedule / stream.",
 		Assume: []string{"RSA PKCS#1 v1.5 signing is deterministic, so the builder model is given the signature and the signing time read back from the blob", "x509.ParseCertificates is opaque (its verdict is handed to the model)"},
 		Eval:   c05Eval, Gen: c05Gen,
 	})
